@@ -4,6 +4,7 @@ import AdfObdd.AdfModel
 import AdfObdd.CompleteExact
 import AdfObdd.OpsProofs
 import AdfObdd.BioProofs
+import AdfObdd.HybridExample
 /-! # C02 — complete-model enumeration: sound, complete (and duplicate free through C20)
 
 The code enumerates the refinements of the grounded interpretation with the three-valued iterator
@@ -146,21 +147,8 @@ namespace C02
 theorem buildNative_fns (fms : List Fm) (hn : fms.length ≤ VBOT) (hv : ∀ f ∈ fms, f.atomsOK) :
     WF (buildNative fms.length fms).1 ∧ (buildNative fms.length fms).2.length = fms.length ∧
     (∀ t ∈ (buildNative fms.length fms).2, t < (buildNative fms.length fms).1.nodes.size) ∧
-    (buildNative fms.length fms).2.map (eval (buildNative fms.length fms).1) = fms.map Fm.sem := by
-  obtain ⟨w, hl, hok⟩ := buildNative_correct fms.length fms hn hv
-  refine ⟨w, hl, ?_, ?_⟩
-  · intro t ht
-    obtain ⟨i, hi, rfl⟩ := List.getElem_of_mem ht
-    have hi' : i < fms.length := by rw [← hl]; exact hi
-    exact (hok i _ fms[i] (List.getElem?_eq_getElem hi) (List.getElem?_eq_getElem hi')).1
-  · apply List.ext_getElem
-    · simp [hl]
-    · intro i h1 h2
-      simp only [List.getElem_map]
-      have hi : i < (buildNative fms.length fms).2.length := by simpa using h1
-      have hi' : i < fms.length := by simpa using h2
-      funext σ
-      exact (hok i _ fms[i] (List.getElem?_eq_getElem hi) (List.getElem?_eq_getElem hi')).2 σ
+    (buildNative fms.length fms).2.map (eval (buildNative fms.length fms).1) = fms.map Fm.sem :=
+  _root_.buildNative_fns fms hn hv
 
 /-- **the oracle beyond truth-table size.** For frameworks of ANY number of statements, written as
 formulas: the complete enumeration of the model on the freshly compiled store lists - without
@@ -181,4 +169,71 @@ theorem complete_exact_from_formulas (fms : List Fm) (hn : fms.length ≤ VBOT) 
 example : ([Fm.atom 1, Fm.atom 0] : List Fm).length ≤ VBOT ∧ ∀ f ∈ ([Fm.atom 1, Fm.atom 0] : List Fm), f.atomsOK := by
   simp [VBOT, Fm.atomsOK]
 
+/-- native example with an UNDECIDED position and several answers: `s(a). s(b). ac(a,neg(b)).
+ac(b,neg(a)).` compiled by the `from_parser` model; `completeAll` on the compiled store returns (read as
+interpretations) `u u` - the grounded interpretation, nothing is decided -, `T F` and `F T`, and not `T T`
+(through `complete_exact_from_formulas`; the fixpoint facts by evaluation on the truth-table library) -/
+example :
+    let b := buildNative 2 Bio.exMutual
+    let out := (completeAll b.1 2 b.2).2.2.map (fun v => v.map storeIsConst)
+    [none, none] ∈ out ∧ [some true, some false] ∈ out ∧ [some false, some true] ∈ out ∧
+    [some true, some true] ∉ out ∧ out.Nodup := by
+  have h := complete_exact_from_formulas Bio.exMutual (by simp [Bio.exMutual, VBOT])
+    (fun f hf => NConc.atomsOK_of_lt (by simp [Bio.exMutual, VBOT]) f (Bio.exMutual_ok f hf))
+  have t := Bio.tt_complete Bio.exMutual Bio.exMutual_ok
+  refine ⟨(h.2.1 _).mpr ((t _).mp (by decide)), (h.2.1 _).mpr ((t _).mp (by decide)),
+    (h.2.1 _).mpr ((t _).mp (by decide)), fun hin => ?_, h.1⟩
+  have := (t _).mpr ((h.2.1 _).mp hin)
+  revert this; decide
+
 end C02
+
+/-! ## the hybrid back-end (`hybrid_step_opt` + native `complete`) end to end -/
+namespace C02
+
+/-- **hybrid back-end, end to end**: `Adf::complete` on the native object built by
+`hybrid_step_opt(opt)` (model `Bio.hybridStep`: optional biodivine grounding, per-condition dump, replay
+into one native store) lists - read as interpretations - without duplicates exactly the fixpoints of Γ of
+the ORIGINAL conditions `ac.map W.den`, the first answer is the grounded vector, and that vector is the
+least fixpoint; for both values of the flag. Assumptions about the external crate: `W`, `hd` (see
+`C01.hybrid_grounded_is_lfp`). -/
+theorem hybrid_complete_exact {T : Type} (L : Bio.Lib T) (n : Nat) (W : Bio.Lawful L n)
+    (dump : T → List Node) (hd : Bio.DumpSpec W dump) (opt : Bool)
+    (ac : List T) (hv : ∀ a ∈ ac, W.Valid a) (hn : ac.length = n) :
+    let r := Bio.hybridStep L dump opt ac
+    let c := completeAll r.1 n r.2
+    (c.2.2.map (fun v => v.map storeIsConst)).Nodup ∧
+    (∀ w : I3, w ∈ c.2.2.map (fun v => v.map storeIsConst) ↔ (w.length = n ∧ Gam (ac.map W.den) w = w)) ∧
+    c.2.2.head? = some c.2.1 ∧ IsLfp (ac.map W.den) (c.2.1.map storeIsConst) :=
+  Bio.hybrid_complete W hd opt ac hv hn
+
+/-- the same from the WRITTEN framework (biodivine `from_parser`, `hybrid_step_opt`, native `complete`) -/
+theorem hybrid_complete_from_formulas {T : Type} (L : Bio.Lib T) (fms : List Fm) (W : Bio.Lawful L fms.length)
+    (dump : T → List Node) (hd : Bio.DumpSpec W dump) (opt : Bool)
+    (hv : ∀ f ∈ fms, NConc.atomsLt fms.length f) :
+    let r := Bio.hybridStep L dump opt (Bio.fromFormulas L fms)
+    let c := completeAll r.1 fms.length r.2
+    (c.2.2.map (fun v => v.map storeIsConst)).Nodup ∧
+    (∀ w : I3, w ∈ c.2.2.map (fun v => v.map storeIsConst) ↔ (w.length = fms.length ∧ Gam (fms.map Fm.sem) w = w)) ∧
+    c.2.2.head? = some c.2.1 ∧ IsLfp (fms.map Fm.sem) (c.2.1.map storeIsConst) := by
+  have ⟨a, b, c, _⟩ := Bio.fromFormulas_spec fms W hv
+  have := Bio.hybrid_complete W hd opt _ b a
+  rw [c] at this; exact this
+
+/-- non-vacuity (lawful truth-table library over two variables with its decision-tree dump): the
+mutual attack through the hybrid pipeline, both flags - `u u`, `T F`, `F T` are answers, `T T` is not -/
+example (opt : Bool) :
+    let r := Bio.hybridStep (Bio.ttLib 2) Bio.ttDump2 opt (Bio.fromFormulas (Bio.ttLib 2) Bio.exMutual)
+    let out := (completeAll r.1 2 r.2).2.2.map (fun v => v.map storeIsConst)
+    [none, none] ∈ out ∧ [some true, some false] ∈ out ∧ [some false, some true] ∈ out ∧
+    [some true, some true] ∉ out := by
+  have h := hybrid_complete_from_formulas (Bio.ttLib 2) Bio.exMutual (Bio.ttLawful 2) Bio.ttDump2
+    Bio.ttDump2_spec opt Bio.exMutual_ok
+  have t := Bio.tt_complete Bio.exMutual Bio.exMutual_ok
+  refine ⟨(h.2.1 _).mpr ((t _).mp (by decide)), (h.2.1 _).mpr ((t _).mp (by decide)),
+    (h.2.1 _).mpr ((t _).mp (by decide)), fun hin => ?_⟩
+  have := (t _).mpr ((h.2.1 _).mp hin)
+  revert this; decide
+
+end C02
+
